@@ -82,15 +82,16 @@ CHECKS = {
     "C01": dict(
         text="ncrypt_protect_secret -> (optional re-pack to the trailing layout) -> ncrypt_unprotect_secret (and the async twins) are executed end to end, offline, with symbolic "
              "plaintext content, 64 symbolic root-key bytes and a symbolic clock inside windows containing L2/L1/L0 boundaries, against ideal KDF/AEAD/key-wrap/RNG stubs; on "
-             "every path z3 proves the returned bytes equal the plaintext symbols and no path ends in an exception. Nonce mode, 4 hashes, listed plaintext lengths and SIDs.",
+             "every path z3 proves the returned bytes equal the plaintext symbols and no path ends in an exception. Nonce mode (4 hashes, listed plaintext lengths and SIDs, same or fresh "
+             "KeyCache) and public-key mode (DH / ECDH_P256 / ECDH_P384, the harness plays the DC; decrypted by a root-key holder).",
         note="Trusted: interpreter, z3, the ideal-primitive contracts (incl. no collisions between distinct outputs). Bit-level crypto, clock instants outside the windows "
-             "(composed from C09 and C02), unlisted lengths/SIDs and public-key mode are outside this check's claim."),
+             "(composed from C09 and C02), unlisted lengths/SIDs and P521 are outside this check's claim."),
     "C19": dict(
         text="2..4 consecutive protect calls (identical or different arguments, one unprotect interleaved) are executed in one path against an RNG stub that tags every draw; "
              "z3 proves that each emitted blob's GCM nonce, content-encryption key (recovered through the key-wrap record) and key-identifier nonce equal the values of draws "
-             "made during that very call, one role per draw, no draw shared between calls.",
-        note="Trusted: interpreter, z3, the stubs. Statistical quality of the OS RNG is outside the technique; distinctness follows from the RNG assumption. Public-key mode "
-             "(ephemeral key) is not covered yet."),
+             "made during that very call, one role per draw, no draw shared between calls; in public-key mode the ephemeral public key must be the group element of a "
+             "private key drawn during the call.",
+        note="Trusted: interpreter, z3, the stubs. Statistical quality of the OS RNG is outside the technique; distinctness follows from the RNG assumption."),
     "C04": dict(
         text="A valid blob is produced symbolically by protect (symbolic plaintext, root key, CEK, nonces, ciphertext; both layouts) and then altered: one byte replaced by a "
              "symbolic value at structural positions (thorough: every position), truncation, deletion and insertion of a symbolic byte, two-site substitutions; unprotect is "
